@@ -310,6 +310,10 @@ theorem sim_step (hnf : 0 < c.nf) (hrep : c.rep ≠ 0) (st : St α) (sp : Sp) (h
   | next => exact sim_next c rf hnf hrep st sp h
   | seek p => exact sim_seek c rf st sp h p
   | seekBad => exact ⟨rfl, h⟩
+  | render =>
+    obtain ⟨hs, _, hz, _⟩ := id h
+    exact ⟨by simp [step, specStep, hs, hz], h⟩
+  | pilSeek k => exact ⟨rfl, h⟩
   | close =>
     obtain ⟨hs, hl, hz, _⟩ := h
     simp [step, specStep, R, hs, hl, hz]
